@@ -8,25 +8,37 @@ structure SInv (s : Sys) : Prop where
   watcher : WatcherInv s.bus
   link : Link s
   ex : ∀ l, (s.pipe l).ExOrder
+  causal : ∀ l, (s.pipe l).Causal
 
 theorem sinv_init (todo : Nat → Nat) (pipes : Nat → PConfig) (hf : ∀ l, (pipes l).Fresh) :
     SInv ⟨init todo, pipes⟩ := by
-  refine ⟨⟨todo, [], rfl⟩, watcherInv_init todo, ?_, fun l h => by rw [(hf l).2.2.2.1] at h; cases h⟩
+  refine ⟨⟨todo, [], rfl⟩, watcherInv_init todo, ?_, fun l h => by rw [(hf l).2.2.2.1] at h; exact absurd h (by simp), ?_⟩
   constructor <;> intro l
   · simp [init, (hf l).1]
   · simp [init, (hf l).2.1]
   · simp [init]
   · simp [init]
+  · intro l
+    obtain ⟨_, f2, _, f4, f5, _, f7, _⟩ := hf l
+    refine ⟨?_, ?_, ?_, ?_⟩ <;> intro h
+    · rw [f2] at h; cases h
+    · rw [f4] at h; cases h
+    · rw [f5] at h; cases h
+    · intro h'; rw [f7] at h'; cases h'
 
 theorem sinv_step {pl : Ev → Msg} {s s' : Sys} {m : SMove} (h : SInv s) (hs : sstep pl s m = some s') : SInv s' := by
   obtain ⟨sched, hb⟩ := sstep_bus_run hs
-  refine ⟨?_, ?_, link_step h.reach.inv.lock h.watcher h.link hs, ?_⟩
+  refine ⟨?_, ?_, link_step h.reach.inv.lock h.watcher h.link hs, ?_, ?_⟩
   · rw [hb]; exact h.reach.run sched
   · rw [hb]; exact watcherInv_run sched h.reach.inv h.watcher
   · intro l
     rcases sstep_pipe hs l with he | ⟨pm, hp⟩
     · rw [he]; exact h.ex l
     · exact exOrder_step (h.ex l) hp
+  · intro l
+    rcases sstep_pipe hs l with he | ⟨pm, hp⟩
+    · rw [he]; exact h.causal l
+    · exact (causal_step (h.causal l) hp).1
 
 theorem sinv_run {pl : Ev → Msg} {s : Sys} (sched : List SMove) (h : SInv s) : SInv (srun pl s sched) := by
   induction sched generalizing s with
